@@ -39,12 +39,14 @@ pub fn rx_raw_case(data: &[u8]) -> c04::Case {
         1 => c04::Phase::Authorize,
         _ => c04::Phase::Run,
     };
-    let chunk = match b(1) % 8 {
+    let chunk = match b(1) % 10 {
         0..=3 => 0u16,
         4 => 1,
         5 => 2,
         6 => 3,
-        _ => 7,
+        7 => 7,
+        8 => 512,
+        _ => 600,
     };
     let off = b(3) as u16;
     let fault = match b(2) % 10 {
@@ -89,13 +91,26 @@ pub fn fuzz_hist(data: &[u8]) -> Option<(Failure, String)> {
         .ok()
         .and_then(|s| s.parse::<u8>().ok())
         .unwrap_or(*sel);
-    match sel % 7 {
+    use crate::props::misc::{C11, C12, C17};
+    match sel % 13 {
         0 => fuzz_struct::<C06>(rest),
         1 => fuzz_struct::<C07>(rest),
         2 => fuzz_struct::<C08>(rest),
         3 => fuzz_struct::<C09>(rest),
         4 => fuzz_struct::<C10>(rest),
         5 => fuzz_struct::<C13>(rest),
-        _ => fuzz_struct::<C15>(rest),
+        6 => fuzz_struct::<C15>(rest),
+        7 => fuzz_struct::<C05>(rest),
+        8 => fuzz_struct::<C12>(rest),
+        9 => fuzz_struct::<C14>(rest),
+        10 => fuzz_struct::<C16>(rest),
+        11 => fuzz_struct::<C17>(rest),
+        _ => {
+            // C11: only the fine-grained schedules (a long history takes seconds)
+            let case = case_from_bytes::<C11>(rest)?;
+            case.history.as_ref()?;
+            let out = <C11 as Property>::run(&case);
+            out.fail.map(|f| (f, serde_json::to_string(&case).unwrap_or_default()))
+        }
     }
 }
